@@ -5,6 +5,14 @@ from .attr_corners import corner_angles
 from .attr_faces import face_area
 from ..utils import check_argument
 
+def _reset_output(attr : Attribute, ids) -> None:
+    """Empties an output attribute and makes sure it reads as zero on the elements `ids`:
+    the sums below accumulate into the output, which would otherwise start from a non-zero default value."""
+    attr.clear()
+    if np.any(np.asarray(attr.default_value) != 0):
+        for i in ids:
+            attr[i] = attr[i]*0
+
 
 @forbidden_mesh_types(PointCloud,PolyLine)
 def interpolate_vertices_to_faces(
@@ -23,7 +31,7 @@ def interpolate_vertices_to_faces(
     Returns:
         Attribute: fattr
     """
-    fattr.clear()
+    _reset_output(fattr, mesh.id_faces)
     for f,F in enumerate(mesh.faces):
         for v in F:
             fattr[f] = fattr[f] + vattr[v]
@@ -62,7 +70,7 @@ def interpolate_faces_to_vertices(
     """
     weight = weight.lower()
     check_argument("weight", weight, str, {'uniform', 'area', 'angle', 'sum'})
-    vattr.clear() # the result overwrites what the output attribute held before (as in interpolate_vertices_to_faces)
+    _reset_output(vattr, mesh.id_vertices) # the result overwrites what the output attribute held before (as in interpolate_vertices_to_faces)
 
     if weight in ("uniform", 'sum'):
         for v in mesh.id_vertices:
@@ -146,7 +154,7 @@ def average_corners_to_vertices(
     """
     weight = weight.lower()
     check_argument("weight", weight, str, {'uniform', 'angle', 'sum'})
-    vattr.clear() # the result overwrites what the output attribute held before
+    _reset_output(vattr, mesh.id_vertices) # the result overwrites what the output attribute held before
     
     if weight == "uniform":
         count = np.zeros(len(mesh.vertices))
@@ -224,7 +232,7 @@ def average_corners_to_faces(
     """
     weight = weight.lower()
     check_argument("weight", weight, str, ['uniform', 'angle', 'sum'])
-    fattr.clear() # the result overwrites what the output attribute held before
+    _reset_output(fattr, mesh.id_faces) # the result overwrites what the output attribute held before
 
     if weight == "uniform":
         for F in mesh.id_faces:
